@@ -199,7 +199,11 @@ def run_case(case: dict[str, Any]) -> CaseOut:
             c.take()
             assert b'a OK' in c.cmd(b'a LOGIN alice pwalice\r\n')
             c.cmd(b'a SELECT INBOX\r\n')
+            import pymap
+            import harness
             interp = (sys.prefix, sys.base_prefix, '/repo', '/verif',
+                      os.path.dirname(os.path.dirname(pymap.__file__)),
+                      os.path.dirname(os.path.dirname(harness.__file__)),
                       '/usr/share/zoneinfo', '/etc', '/dev', '/usr/lib',
                       '/proc')
             mon = fsmon.FsMon(allowed_root=store,
